@@ -109,7 +109,8 @@ int main(int argc, char **argv) {
                 for (long jump = 1; jump <= 3; ++jump) for (long w = 0; w < 256; w += 32) { Task t; t.cfg = c; t.kind = 3; t.word_lo = w; t.word_hi = w + 32; t.rep = 300; t.n = 4; t.seam = jump; tasks.push_back(t); }
                 // huge variant: more than 2^15 segments on the bottom level, so that the upper levels are built by the chunked builder
                 // chunk-tail variant: the density toggles d clusters before every chunk boundary of the (possibly chunked) upper level
-                if (e.eps <= 2 && e.eps_rec > 0) for (long p : {2L, 16L}) for (long d : (thorough ? std::vector<long>{0, 1, 2, 3, 5, 9} : std::vector<long>{1, 2, 3})) { Task t; t.cfg = c; t.kind = 5; t.rep = 44000; t.p = p; t.word_lo = d; tasks.push_back(t); }
+                if (e.eps <= 2 && e.eps_rec > 0) for (long p : {2L, 16L}) for (long d : (thorough ? std::vector<long>{0, 1, 2, 3, 5, 9} : std::vector<long>{1, 3}))
+                    for (long B : {std::max<long>(5, 2 * long(e.eps_rec) + 1), 300L}) { Task t; t.cfg = c; t.kind = 5; t.rep = 44000; t.p = p; t.word_lo = d; t.word_hi = B; tasks.push_back(t); }
                 if (e.eps <= 2) for (long p : {2L, 16L}) for (long w : (thorough ? std::vector<long>{27, 114, 201, 228} : std::vector<long>{27, 228})) { Task t; t.cfg = c; t.kind = 3; t.word_lo = w; t.word_hi = w + 1; t.rep = 11000; t.n = 4; t.p = p; tasks.push_back(t); }
             }
             if ((fam & 4) && wide) {
@@ -126,7 +127,7 @@ int main(int argc, char **argv) {
             }
         }
         fam_bounds = thorough ? "; seam family n=32768+{0,1,7}, chunks {2,3,4,5,7,16,19,20}, all 4096 window words at every seam (and at the first/last seam alone); blocks family: 1 block x rep {1,50,400}, 2 blocks x rep {1,20}; density family: all 1024 five-digit words x 300 clusters"
-                              : "; seam family n=32768, chunks {2,20}, all 4096 window words at every seam; blocks family: 1 block x rep {1,50}, 2 blocks x rep 1; density family: all 256 four-digit words of gap multipliers x 300 clusters (several segments per upper level), skewed variants with a 3x/30x jump, and 44000-cluster variants whose upper levels are built by the chunked builder; long-run family: a duplicate run from around a chunk start to around a chunk end, every start/end offset";
+                              : "; seam family n=32768, chunks {2,20}, all 4096 window words at every seam; blocks family: 1 block x rep {1,50}, 2 blocks x rep 1; density family: all 256 four-digit words of gap multipliers x 300 clusters (several segments per upper level), skewed variants with a 3x/30x jump, and 44000-cluster variants (plain, and 'chunk-tail' with a key-space jump 1/3 clusters before every chunk boundary over a zig-zag background) whose upper levels are built by the chunked builder; long-run family: a duplicate run from around a chunk start to around a chunk end, every start/end offset";
     }
 
     run.run_tasks(tasks.size(), [&](uint64_t ti) {
@@ -148,7 +149,7 @@ int main(int argc, char **argv) {
                 e.family(run, cn, prop, s);
             }
         } else if (t.kind == 5) {
-            ks::FamilySpec s; s.kind = "chunktail"; s.chunks = t.p; s.rep = t.rep; s.word = t.word_lo;
+            ks::FamilySpec s; s.kind = "chunktail"; s.chunks = t.p; s.rep = t.rep; s.word = t.word_lo; s.width = t.word_hi;
             if (t.p == 16 && t.word_lo == 2) run.sample(std::string("cfg=") + e.name + " family=" + s.str());
             e.family(run, cn, prop, s);
         } else if (t.kind == 4) {
